@@ -3,6 +3,9 @@
 (* Judges recorded outputs of the randomised point generators against the  *)
 (* post-conditions of Grid.tla.  IOEnv.OBS_FILE is a JSON array of         *)
 (*   [kind |-> "rbin", N, ndim, r]            one randomly_bin(N, ndim)    *)
+(*   [kind |-> "rbinx", N, ndim, exact, r]    one randomly_bin(N, ndim,    *)
+(*                       ones, exact) of the GridGen catalogue; ndim = 0:  *)
+(*                       not given (the length is free)                    *)
 (*   [kind |-> "pts", npts, dim, lo, hi, pts] one samplepts / fillpts /    *)
 (*                       random_samples call; all reals replaced by their  *)
 (*                       ranks within the observation (order-preserving)   *)
@@ -11,11 +14,13 @@
 (***************************************************************************)
 EXTENDS Integers, Sequences, TLC, Json, IOUtils
 
-G == INSTANCE Grid WITH Dims <- {1}, MaxBins <- 1, Bounds <- {}, dim <- 0, nbins <- << >>, lo <- << >>, hi <- << >>
+G == INSTANCE Grid WITH Dims <- {1}, MaxBins <- 1, BinChoices <- {1}, Bounds <- {}, Scales <- {0},
+                       dim <- 0, nbins <- << >>, lo <- << >>, hi <- << >>, sc <- 0
 
 Obs == JsonDeserialize(IOEnv.OBS_FILE)
 
 Verdict(o) == IF o.kind = "rbin" THEN G!Failing(G!RandomlyBinPost(o.N, o.ndim, o.r))
+              ELSE IF o.kind = "rbinx" THEN G!Failing(G!RandomlyBinPostX(o.N, o.ndim, o.exact, o.r))
               ELSE G!Failing(G!PointsPost(o.npts, o.dim, o.lo, o.hi, o.pts))
 
 ASSUME PrintT(<<"@@", ToJson([verdicts |-> [i \in 1..Len(Obs) |-> Verdict(Obs[i])]])>>)
